@@ -51,3 +51,44 @@ Proof.
 Qed.
 
 End Dispatch.
+
+(* ---- DualTransform: the target table and the list-valued targets.  Values are abstracted to integers (an array,
+   the geometry of an annotation, the header); an annotation is (geometry, trailing fields).  Every entry of
+   `masks` goes through apply_to_mask, every box through apply_to_bbox with its trailing fields kept, in order. ---- *)
+From Coq Require Import ZArith.
+Inductive dval : Type :=
+| VArr (z : Z)                         (* image, mask, header *)
+| VList (l : list Z)                   (* masks *)
+| VAnn (l : list (Z * Z)).             (* bboxes / keypoints: (geometry, trailing fields) *)
+
+Section Dual.
+Variables fi fm fb fk fd : Z -> Z.     (* apply, apply_to_mask, apply_to_bbox, apply_to_keypoint, apply_to_dicom *)
+
+Definition dual_target (tkey : string) (v : dval) : dval :=
+  match v with
+  | VArr z => if String.eqb tkey "image" then VArr (fi z)
+              else if String.eqb tkey "mask" then VArr (fm z)
+              else if String.eqb tkey "dicom" then VArr (fd z) else v
+  | VList l => if String.eqb tkey "masks" then VList (map fm l) else v
+  | VAnn l => if String.eqb tkey "bboxes" then VAnn (map (fun gt => (fb (fst gt), snd gt)) l)
+              else if String.eqb tkey "keypoints" then VAnn (map (fun gt => (fk (fst gt), snd gt)) l) else v
+  end.
+
+Definition dual_apply (additional : list (string * string)) (kwargs : list (string * option dval))
+  : list (string * option dval) :=
+  map (fun kv => let tkey := match lookup (fst kv) additional with Some t => t | None => fst kv end in
+                 (fst kv, match snd kv with Some v => Some (dual_target tkey v) | None => None end)) kwargs.
+
+Lemma masks_entrywise l : dual_target "masks" (VList l) = VList (map fm l).
+Proof. reflexivity. Qed.
+Lemma boxes_keep_their_tails l :
+  dual_target "bboxes" (VAnn l) = VAnn (map (fun gt => (fb (fst gt), snd gt)) l) /\
+  map snd (map (fun gt => (fb (fst gt), snd gt)) l) = map snd l.
+Proof. split; [reflexivity|]. rewrite map_map. reflexivity. Qed.
+Lemma keypoints_keep_their_tails l :
+  dual_target "keypoints" (VAnn l) = VAnn (map (fun gt => (fk (fst gt), snd gt)) l) /\
+  map snd (map (fun gt => (fk (fst gt), snd gt)) l) = map snd l.
+Proof. split; [reflexivity|]. rewrite map_map. reflexivity. Qed.
+Lemma dual_same_keys additional kwargs : map fst (dual_apply additional kwargs) = map fst kwargs.
+Proof. unfold dual_apply. rewrite map_map. reflexivity. Qed.
+End Dual.
